@@ -1,5 +1,5 @@
 (* Properties_C08.v — C08: deadlines and time-outs bound every wait and poll.  Theorems only. *)
-From Verif Require Import Lib WorldSpec LibSpec LibSpec2 ProofsPure ProofsFed.
+From Verif Require Import Lib WorldSpec LibSpec LibSpec2 ProofsPure ProofsFed TimeSpec.
 From Coq Require Import Lia.
 Local Open Scope Z_scope.
 
@@ -45,6 +45,40 @@ Theorem C08_wait_footprint : forall p t,
          (fun rp' => shrinks p (snd rp') /\ (fst rp' < 0 -> snd rp' = p) /\ (0 <= fst rp' -> h_status (snd rp') = fst rp')).
 Proof. exact emitsR_reproc_wait. Qed.
 Print Assumptions C08_wait_footprint.
+
+(* THE BOUND ON THE OPERATING-SYSTEM WAIT, for every world: any number of child processes with any
+   scripts, any schedule, any fault and latency plan.  Virtual time is advanced only by the
+   blocking loop, never backwards and never past the deadline: a poll with time-out t >= 0 is
+   blocked between 0 and t. *)
+Theorem C08_blocking_never_passes_the_deadline : forall ready tmo w, 0 <= tmo ->
+  w_time w <= w_time (blocked_world (block_until ready tmo w)) <= w_time w + tmo.
+Proof. exact block_until_bound. Qed.
+Print Assumptions C08_blocking_never_passes_the_deadline.
+
+(* every poll event -- whoever made the call -- whose time-out argument is non-negative records a
+   blocking time within [0, time-out]; also when the call is interrupted by the fault plan *)
+Theorem C08_poll_bounded_by_its_timeout : forall fds tmo, emits (sys_poll fds tmo) pollok.
+Proof. exact sys_poll_ok. Qed.
+Print Assumptions C08_poll_bounded_by_its_timeout.
+
+(* wait(t) with t >= 0 hands t to the operating system and is therefore never blocked longer than t;
+   and no poll made by wait / stop / destroy, whatever its time-out came from (action time-outs,
+   the deadline), is blocked longer than the time-out it was given *)
+Theorem C08_wait_bounded : forall p t, 0 <= t -> emits (reproc_wait p t) (bounded t).
+Proof. exact reproc_wait_bounded. Qed.
+Print Assumptions C08_wait_bounded.
+(* poll(t) with t >= 0, for every list of sources (any order, NULL entries, any deadlines): no
+   OS-level wait of it exceeds t; and every poll it makes is bounded by the time-out it was given *)
+Theorem C08_poll_bounded : forall srcs t, 0 <= t -> emits (reproc_poll srcs t) (bounded t).
+Proof. exact reproc_poll_bounded. Qed.
+Print Assumptions C08_poll_bounded.
+Theorem C08_poll_polls_bounded : forall srcs t, emits (reproc_poll srcs t) pollok.
+Proof. exact ok_reproc_poll. Qed.
+Print Assumptions C08_poll_polls_bounded.
+Theorem C08_wait_stop_destroy_polls_bounded : forall p,
+  (forall t, emits (reproc_wait p t) pollok) /\ (forall a, emits (reproc_stop p a) pollok) /\ emits (reproc_destroy p) pollok.
+Proof. intros p. split; [intros t; apply ok_reproc_wait|]. split; [intros a; apply ok_reproc_stop|apply ok_reproc_destroy]. Qed.
+Print Assumptions C08_wait_stop_destroy_polls_bounded.
 
 Example C08_ex : fed_pure 1000 [Some 1150; None; Some (-1); Some 1100] 0 0 REPROC_INFINITE = 3
               /\ fed_pure 1000 [Some (-1); Some 1150] 0 0 REPROC_INFINITE = 1
